@@ -148,6 +148,34 @@ pub fn history(bytes: &[u8]) -> (Vec<Snippet>, Vec<&'static str>) {
                         Stmt::new(StmtKind::Import("ma".into(), None)),
                         Stmt::print(Expr::invoke(Expr::var("ma"), "bump", vec![])),
                         Stmt::print(Expr::callv("type", vec![Expr::invoke(Expr::var("Error"), "new", vec![Expr::Num(1.0)])])),
+                        // the core library's own methods still work (and reach nothing that was reclaimed)
+                        Stmt::print(Expr::invoke(
+                            Expr::invoke(
+                                Expr::invoke(Expr::VecLit(vec![Expr::Num(1.0), Expr::Num(2.0), Expr::Num(3.0)]), "iter", vec![]),
+                                "map",
+                                vec![Expr::Lambda(Rc::new(FnDef {
+                                    name: std::cell::RefCell::new("lambda-0".into()),
+                                    params: vec!["q".into()],
+                                    body: Body::Expr(Box::new(Expr::bin(BinOp::Add, Expr::var("q"), Expr::Num(1.0)))),
+                                    kind: FnKind::Lambda,
+                                }))],
+                            ),
+                            "collect",
+                            vec![],
+                        )),
+                        Stmt::print(Expr::invoke(
+                            Expr::invoke(Expr::str("ab"), "iter", vec![]),
+                            "reduce",
+                            vec![
+                                Expr::Lambda(Rc::new(FnDef {
+                                    name: std::cell::RefCell::new("lambda-0".into()),
+                                    params: vec!["a".into(), "b".into()],
+                                    body: Body::Expr(Box::new(Expr::bin(BinOp::Add, Expr::var("a"), Expr::var("b")))),
+                                    kind: FnKind::Lambda,
+                                })),
+                                Expr::str(""),
+                            ],
+                        )),
                     ],
                     "probe_after_reset",
                 ));
@@ -296,6 +324,28 @@ pub fn history(bytes: &[u8]) -> (Vec<Snippet>, Vec<&'static str>) {
                 ];
                 v.push(Snippet::Code(s, "import"));
                 labels.push("import");
+            }
+            13 => {
+                // a range kept in a global is the same value as the same bounds written in a later
+                // snippet, exactly as it would be later in one program (equality, map key, tuple)
+                let rk = g.fresh_pub("grk");
+                let a = g.rd.below(4) as f64;
+                let b = a + 1.0 + g.rd.below(5) as f64;
+                g.note_range(a as i64, b as i64);
+                let lit = || Expr::range(Expr::Num(a), Expr::Num(b));
+                v.push(Snippet::Code(
+                    vec![Stmt::var(&rk, Some(lit())), Stmt::print(Expr::bin(BinOp::Eq, Expr::var(&rk), lit()))],
+                    "code",
+                ));
+                v.push(Snippet::Code(
+                    vec![
+                        Stmt::print(Expr::bin(BinOp::Eq, Expr::var(&rk), lit())),
+                        Stmt::print(Expr::bin(BinOp::Eq, Expr::TupleLit(vec![Expr::var(&rk), Expr::Num(1.0)]), Expr::TupleLit(vec![lit(), Expr::Num(1.0)]))),
+                        Stmt::print(Expr::invoke(Expr::invoke(Expr::var(&rk), "iter", vec![]), "collect", vec![])),
+                    ],
+                    "range_across_snippets",
+                ));
+                labels.push("range_across_snippets");
             }
             12 => {
                 // a snippet that ends normally after a return inside a finally block swallowed an
@@ -491,7 +541,7 @@ impl Property for C15 {
         let _ = MODULES;
         let rcfg = RefCfg::default();
         let (mut sh, mut rctx, mut rmain) = new_interp(&rcfg, &mods_ast);
-        let mut session = Session::new(RunCfg { fuel: Some(3_000_000), modules: mods_text.clone(), ..RunCfg::default() });
+        let mut session = Session::new(RunCfg { fuel: Some(3_000_000), modules: mods_text.clone(), quarantine: true, ..RunCfg::default() });
         let mut rendered = String::new();
         let mut failure_seen = false;
         let mut nontrivial = false;
@@ -595,6 +645,17 @@ impl Property for C15 {
         }
         if let End::Panic(p) = &fin.end {
             return Verdict::Fail { sig: format!("panic:{}", crate::props::c03::sig_of_panic(p)), detail: format!("dropping the interpreter panicked: {}\n{}", p, rendered) };
+        }
+        // swept objects are quarantined for the whole history: a later snippet (after a failure or a
+        // reset) that reaches an object the collector has reclaimed is reported even when the freed
+        // memory still happens to hold the old contents
+        if fin.uas_count > 0 {
+            let sig = if fin.uas.iter().all(|t| t.contains("open upvalue into the value stack")) {
+                "use-after-sweep:fiber-stack-upvalue".to_string()
+            } else {
+                "use-after-sweep".to_string()
+            };
+            return Verdict::Fail { sig, detail: format!("{} dereferences of swept objects {:?} during the history\n{}", fin.uas_count, fin.uas, rendered) };
         }
         ctx.label_n("snippets", h.len() as u64);
         Verdict::Pass { nontrivial, hash: fnv64(rendered.as_bytes()) }
